@@ -265,6 +265,69 @@ def desugar_suppress(modules):
     return count
 
 
+def desugar_closing(modules):
+    """`with contextlib.closing(E) as v: B` (one item) is analysed as `v = E` followed by `try: B` / `finally: v.close()`; without `as`, for a
+    side-effect-free E, as `try: B` / `finally: E.close()`.  That is what the context manager does, and it makes the close - often a protocol
+    step (an EOF the other side waits for) - visible to the rules at the place where it really happens.  Returns the number of rewritten
+    statements."""
+    count = 0
+    for mod in modules.values():
+        mod_alias, fn_alias = set(), set()
+        for n in ast.walk(mod.tree):
+            if isinstance(n, ast.Import):
+                mod_alias |= {(a.asname or a.name) for a in n.names if a.name == 'contextlib'}
+            if isinstance(n, ast.ImportFrom) and n.module == 'contextlib' and not n.level:
+                fn_alias |= {(a.asname or a.name) for a in n.names if a.name == 'closing'}
+        if not (mod_alias or fn_alias):
+            continue
+        for parent in ast.walk(mod.tree):
+            for field in ('body', 'orelse', 'finalbody'):
+                lst = getattr(parent, field, None)
+                if not isinstance(lst, list):
+                    continue
+                i = 0
+                while i < len(lst):
+                    st = lst[i]
+                    i += 1
+                    if not (isinstance(st, ast.With) and len(st.items) == 1):
+                        continue
+                    call, var = st.items[0].context_expr, st.items[0].optional_vars
+                    if not (isinstance(call, ast.Call) and len(call.args) == 1 and not call.keywords and not isinstance(call.args[0], ast.Starred)):
+                        continue
+                    f = call.func
+                    if not ((isinstance(f, ast.Name) and f.id in fn_alias) or
+                            (isinstance(f, ast.Attribute) and f.attr == 'closing' and isinstance(f.value, ast.Name) and f.value.id in mod_alias)):
+                        continue
+                    thing = call.args[0]
+                    if var is None and not dotted(thing):
+                        continue
+                    if var is not None and not isinstance(var, ast.Name):
+                        continue
+                    pos = {k: getattr(st, k) for k in ('lineno', 'col_offset', 'end_lineno', 'end_col_offset') if hasattr(st, k)}
+                    last = st.body[-1]
+                    cpos = dict(lineno=getattr(last, 'end_lineno', last.lineno) + 0.5, col_offset=pos['col_offset'],
+                                end_lineno=getattr(last, 'end_lineno', last.lineno) + 0.5, end_col_offset=pos['col_offset'] + 1)
+                    recv_expr = ast.Name(id=var.id, ctx=ast.Load(), **cpos) if var is not None else copy.deepcopy(thing)
+                    if var is None:
+                        for x in ast.walk(recv_expr):
+                            if hasattr(x, 'lineno'):
+                                x.lineno = x.end_lineno = cpos['lineno']
+                    close = ast.Expr(value=ast.Call(func=ast.Attribute(value=recv_expr, attr='close', ctx=ast.Load(), **cpos), args=[], keywords=[], **cpos), **cpos)
+                    close.orig_lineno = pos['lineno']
+                    body = st.body
+                    st.__class__ = ast.Try
+                    st.__dict__.clear()
+                    st.__dict__.update(dict(body=body, handlers=[], orelse=[], finalbody=[close], **pos))
+                    if var is not None:
+                        apos = dict(pos, lineno=pos['lineno'] - 0.5, end_lineno=pos['lineno'] - 0.5)
+                        asg = ast.Assign(targets=[ast.Name(id=var.id, ctx=ast.Store(), **apos)], value=thing, **apos)
+                        asg.orig_lineno = pos['lineno']
+                        lst.insert(i - 1, asg)
+                        i += 1
+                    count += 1
+    return count
+
+
 def normalise_updates(modules):
     """`x = x + 1` (target and left operand the same side-effect-free name or attribute chain, right operand a numeric constant) is analysed as
     `x += 1`: for numbers the two are the same statement, and the counting rules are written for the augmented form.  Returns the number of
@@ -732,6 +795,7 @@ class Program:
                 raise AnalysisError(f'mandatory module {self.package}.{m} is missing')
         self.annotations_stripped = strip_annotations(self.modules)
         self.suppress_desugared = desugar_suppress(self.modules)
+        self.closing_desugared = desugar_closing(self.modules)
         self.updates_normalised = normalise_updates(self.modules)
         self.comparisons_normalised = normalise_comparisons(self.modules)
         self.containers_normalised = normalise_empty_containers(self.modules)
